@@ -525,7 +525,9 @@ theorem pEnsureN_keeps {mu : FMap} {ms : List FMap} {k : Str} (ds : List Str)
     (h : mu.contains k = true) : (pEnsureN (mu :: ms) ds).2.contains k = true := by
   unfold pEnsureN
   split
-  · exact mkdirs_keeps _ h
+  · split
+    · exact mkdirs_keeps _ h
+    · exact h
   · exact h
 
 /-- `create_dir(q)` keeps every key of the upper layer except `marker q` -/
